@@ -18,6 +18,7 @@ import (
 	"crypto/ecdh"
 	"encoding/json"
 	"fmt"
+	"hash/fnv"
 	"math/rand"
 	"sort"
 	"strings"
@@ -588,6 +589,87 @@ func (w *nrWorld) honestRequest(oldCreds *types.NodeCredentials, namedPkix []byt
 	return newNode, &types.RotateNodeCredentialsRequest{CertificatePublicKeyPkix: namedPkix, EncryptedFetchNodeCredentialsRequest: payload, NodeId: nodeID}, nil
 }
 
+// runNRStoreOnceNodeIDs: rotation by node ID on the library's own store-once back end (its LoadByNodeId), two
+// registered nodes whose node IDs differ only in letter case or padding. A request that names one node and is
+// encrypted under the other's shared key is refused and changes nothing; each node rotates under its own ID.
+func runNRStoreOnceNodeIDs(c *engine.Ctx, wrap bool, round int) {
+	r := c.R
+	s := world.MustServer(world.ServerCfg{Backend: world.StoreOnce, StorageWrap: wrap})
+	defer s.Close()
+	ids := [][2]string{{"w_Kq3ZtB9xLm", "w_kQ3zTb9XlM"}, {"worker-7", "worker-7 "}, {"Edge", "edge"}}[round%3]
+	var nodes []*world.Node
+	for _, id := range ids {
+		er, err := world.Enroll(s, world.FlowAuthorize, false, nil, nil, nil)
+		if err != nil {
+			r.Broken("noderot store-once: enroll: " + err.Error())
+			return
+		}
+		ni, err := types.LoadNodeInformation(s.Ctx, s.Inner, er.Node.K.KeyID, s.StoreOpts()...)
+		if err != nil {
+			r.Broken("noderot store-once: load: " + err.Error())
+			return
+		}
+		_ = s.RemoveNode(er.Node.K.KeyID)
+		ni.NodeId = id
+		if err := ni.Store(s.Ctx, s.Store, s.StoreOpts()...); err != nil {
+			r.Broken("noderot store-once: store: " + err.Error())
+			return
+		}
+		nodes = append(nodes, er.Node)
+	}
+	snap := func() map[string][]byte { return recstore.Snapshot(s.Ctx, s.Inner, nil) }
+	build := func(encBy, named int) (*types.RotateNodeCredentialsRequest, error) {
+		nn, err := world.NewNode(false, "")
+		if err != nil {
+			return nil, err
+		}
+		fr, err := nn.FetchRequest()
+		if err != nil {
+			return nil, err
+		}
+		payload, err := nodeenrollment.EncryptMessage(s.Ctx, fr, nodes[encBy].Creds)
+		if err != nil {
+			return nil, err
+		}
+		return &types.RotateNodeCredentialsRequest{CertificatePublicKeyPkix: nodes[named].K.Pkix, EncryptedFetchNodeCredentialsRequest: payload, NodeId: ids[named]}, nil
+	}
+	for named := 0; named < 2; named++ {
+		encBy := 1 - named
+		req, err := build(encBy, named)
+		if err != nil {
+			r.Broken("noderot store-once: build: " + err.Error())
+			return
+		}
+		desc := fmt.Sprintf("storeonce-nodeids round=%d wrap=%v named=%q encrypted-by=%q", round, wrap, ids[named], ids[encBy])
+		r.Eval(desc, true)
+		before := snap()
+		var resp *types.RotateNodeCredentialsResponse
+		var rerr error
+		if p, st := engine.Guard(func() { resp, rerr = rotation.RotateNodeCredentials(s.Ctx, s.Store, req, s.Opts()...) }); p != nil {
+			r.Violation("panic:"+engine.LibraryFrame(st), fmt.Sprintf("RotateNodeCredentials panicked (%s): %v", desc, p), desc)
+			continue
+		}
+		added, removed, changed := nrDiff(before, snap())
+		switch {
+		case rerr == nil:
+			r.Violation("honored:encrypted-under-another-nodes-key,path=nodeid-storeonce", fmt.Sprintf("a rotation request naming node %q (and its certificate key) but encrypted under the shared key of node %q was honoured (reply %d bytes); storage added %d changed %d", ids[named], ids[encBy], len(resp.GetEncryptedFetchNodeCredentialsResponse()), len(added), len(changed)), desc)
+		case len(added)+len(removed)+len(changed) > 0:
+			r.Violation("registered-by-refused-request:encrypted-under-another-nodes-key", fmt.Sprintf("a refused rotation request (%s) changed storage: added %v removed %v changed %v", desc, added, removed, changed), desc)
+		default:
+			r.Count("refused:storeonce-node-id-of-another-node", 1)
+		}
+	}
+	// control: each node rotates under its own node ID
+	req, err := build(0, 0)
+	if err == nil {
+		if _, rerr := rotation.RotateNodeCredentials(s.Ctx, s.Store, req, s.Opts()...); rerr != nil {
+			r.Count("storeonce_own_node_id_rotation_refused(not asserted here)", 1)
+		} else {
+			r.Count("storeonce_own_node_id_rotation_honoured", 1)
+		}
+	}
+}
+
 func runNRCase(c *engine.Ctx, nc nrCase) {
 	r := c.R
 	desc := engine.J(nc)
@@ -969,6 +1051,33 @@ func runNRCase(c *engine.Ctx, nc nrCase) {
 		step = "first"
 	}
 	w.curPath, w.curEncBy, w.curLookup = path, nc.EncBy, lookup
+	hh := fnv.New32a()
+	_, _ = hh.Write([]byte(desc))
+	pick := int(hh.Sum32() >> 4)
+	if fw, ok := w.s.SW.(*world.FlakyWrapper); ok && expect == "honor" && pick%2 == 0 {
+		// first an attempt during which one call of the storage wrapper's key service fails (a Decrypt of a
+		// stored record, or an Encrypt while the new record is sealed): it may be honoured or refused, and a
+		// refusal leaves storage as it was - after which the node simply tries again
+		k := 1 + (pick/2)%4
+		if (pick/8)%2 == 0 {
+			fw.Arm(0, k)
+		} else {
+			fw.Arm(k, 0)
+		}
+		early := w.submit("attempt-under-wrapper-failure", proto.Clone(req).(*types.RotateNodeCredentialsRequest), newNode, cands, "either", "honest-while-a-storage-wrapper-call-fails")
+		n, _, _ := fw.Delivered()
+		fw.Arm(0, 0)
+		if n > 0 {
+			r.Count("honest_rotations_attempted_with_a_failing_storage_wrapper_call", 1)
+		}
+		if early || w.dirty {
+			if early {
+				r.Count("honest_rotations_honoured_despite_a_failing_storage_wrapper_call", 1)
+			}
+			return
+		}
+		r.Count("honest_rotations_retried_after_a_failing_storage_wrapper_call", 1)
+	}
 	honored := w.submit(step, req, newNode, cands, expect, reason)
 
 	if nc.History == "replay" {
@@ -1451,7 +1560,13 @@ func runNodeRot(c *engine.Ctx) engine.Result {
 	r.Require("rotations_honored_checked", 40)
 	r.Require("chain_rotations_checked", 20)
 	r.Require("refused_storage_unchanged", 60)
+	for i := 0; i < c.Pick(6, 30); i++ {
+		runNRStoreOnceNodeIDs(c, i%2 == 1, i)
+	}
+	r.Require("refused:storeonce-node-id-of-another-node", 8)
+	r.Require("storeonce_own_node_id_rotation_honoured", 3)
 	r.Require("refused:replay-after-success", 4)
+	r.Require("honest_rotations_attempted_with_a_failing_storage_wrapper_call", 8)
 	r.Require("refused:replay-of-older-payload", 4)
 	r.Require("token_still_present_after_refusal", 2)
 	return res
